@@ -58,6 +58,15 @@ int main ()
     O.put (m.norm_val); O.put (m.inv_var); putE (O, m.get_Estimate()); };
   OP("me.tree") { unsigned n=A.nat(); std::vector<ER> items; for (unsigned i=0;i<n;i++) items.push_back (rdE(A));
     MeanEstimate<Rat> m = eval_tree (A, items); O.put (m.norm_val); O.put (m.inv_var); putE (O, m.get_Estimate()); };
+  // oracle (history): assigning an Estimate (or an accumulator) to a used accumulator forgets the history: accumulate the first
+  // k items, assign item k (mode 0: `m = estimate`, 1: `m = MeanEstimate(estimate)`, 2: copy-assign an accumulator holding it),
+  // accumulate the rest; the result is the accumulator of items k.. alone.  Output: differences of the two sums
+  OP("o.c12.assign") { unsigned n=A.nat(); unsigned k=A.nat(); unsigned mode=A.nat(); std::vector<ER> items; for (unsigned i=0;i<n;i++) items.push_back (rdE(A));
+    MeanEstimate<Rat> m, f; for (unsigned i=0;i<k;i++) m += items[i];
+    if (mode == 0) m = items[k]; else if (mode == 1) m = MeanEstimate<Rat> (items[k]); else { MeanEstimate<Rat> t; t += items[k]; m = t; }
+    for (unsigned i=k+1;i<n;i++) m += items[i];
+    for (unsigned i=k;i<n;i++) f += items[i];
+    O.put (Rat(m.norm_val - f.norm_val)); O.put (Rat(m.inv_var - f.inv_var)); };
   // oracle: every permutation and every merge tree of the sequence gives the same accumulator, equal to the closed form
   OP("o.c12.orders") { unsigned n=A.nat(); std::vector<ER> items; for (unsigned i=0;i<n;i++) items.push_back (rdE(A));
     Rat sw (0), sx (0); for (auto& e : items) if (e.var != 0) { sw += Rat(1)/e.var; sx += e.val/e.var; }
@@ -113,6 +122,19 @@ int main ()
     long double expect = dx*dx*(long double)s.var + dy*dy*(long double)c.var;
     long double rel = fabsl ((long double)r.var - expect) / (((long double)s.var + c.var) * (1.0L + dx*dx + dy*dy)); O.put (dhex ((double) rel)); };
 
+  // oracle: inverse and quotient over the whole exponent range of double and float, against a long double reference
+  // (var/x^4 and avar/x^2 + a^2 var/x^4); relative errors, 0 where the reference is outside the normal range of the type
+  OP("o.c11.range") { double x = rdD(A).val; double var = rdD(A).val; double a = rdD(A).val; double avar = rdD(A).val;
+    auto rel = [] (long double got, long double want, long double lo, long double hi) -> double {
+      if (!(fabsl (want) > lo && fabsl (want) < hi)) return 0.0; return (double) (fabsl (got - want) / fabsl (want)); };
+    { ED e (x, var), n (a, avar); ED i = e.inverse(); ED q = n / e; ED q2 = n; q2 /= e;
+      long double lx = x, iv = (long double) var / (lx*lx) / (lx*lx), qv = (long double) avar / (lx*lx) + (long double) a * a * iv;
+      putD (O, rel (i.val, 1.0L/lx, 1e-300L, 1e300L)); putD (O, rel (i.var, iv, 1e-290L, 1e290L)); putD (O, rel (q.var, qv, 1e-290L, 1e290L)); putD (O, rel (q2.var, qv, 1e-290L, 1e290L)); }
+    { float fx = (float) x, fv = (float) var, fa = (float) a, fav = (float) avar; Estimate<float> e (fx, fv), n (fa, fav); Estimate<float> i = e.inverse(); Estimate<float> q = n / e;
+      long double lx = fx, iv = (long double) fv / (lx*lx) / (lx*lx), qv = (long double) fav / (lx*lx) + (long double) fa * fa * iv;
+      bool ok = fx != 0 && std::isfinite (fx) && std::fabs (fx) > 1e-36f && std::fabs (fx) < 1e36f;
+      putD (O, ok ? rel (i.var, iv, 1e-30L, 1e30L) * 1e-6 : 0.0); putD (O, ok ? rel (q.var, qv, 1e-30L, 1e30L) * 1e-6 : 0.0); } };
+
   // ---- double: circular mean ----
   OP("mr.fold") { unsigned n=A.nat(); MeanRadian<double> m; bool first = true;
     for (unsigned i=0;i<n;i++) { ED d=rdD(A); if (first) { m = d; first = false; } else m += d; }
@@ -121,6 +143,16 @@ int main ()
     for (unsigned i=0;i<n1;i++) { ED d=rdD(A); if (fa) { a = d; fa = false; } else a += d; }
     for (unsigned i=0;i<n2;i++) { ED d=rdD(A); if (fb) { b = d; fb = false; } else b += d; }
     a += b; putD (O, a.get_Estimate()); putD (O, a.get_cos()); putD (O, a.get_sin()); };
+  // oracle (history), circular mean: `m = estimate` on a used accumulator equals a fresh accumulator assigned the same estimate;
+  // then both accumulate the rest.  Output: number of result components that differ (bitwise)
+  OP("o.c12.rassign") { unsigned n=A.nat(); unsigned k=A.nat(); std::vector<ED> items; for (unsigned i=0;i<n;i++) items.push_back (rdD(A));
+    MeanRadian<double> m, f; for (unsigned i=0;i<k;i++) { if (i == 0) m = items[i]; else m += items[i]; }
+    m = items[k]; f = items[k];
+    for (unsigned i=k+1;i<n;i++) { m += items[i]; f += items[i]; }
+    ED a[3] = { m.get_Estimate(), m.get_cos(), m.get_sin() }; ED b[3] = { f.get_Estimate(), f.get_cos(), f.get_sin() };
+    int bad = 0; for (int i=0;i<3;i++) { if (memcmp (&a[i].val, &b[i].val, 8) != 0 && !(a[i].val != a[i].val && b[i].val != b[i].val)) bad++;
+      if (memcmp (&a[i].var, &b[i].var, 8) != 0 && !(a[i].var != a[i].var && b[i].var != b[i].var)) bad++; }
+    O.put (bad); };
   // oracle: direction of the circular mean against the weighted vector sum (weights 1/var); prints |difference| mod 2 pi
   OP("o.c12.direction") { unsigned n=A.nat(); MeanRadian<double> m; bool first = true; long double sx = 0, sy = 0;
     for (unsigned i=0;i<n;i++) { ED d=rdD(A); if (first) { m = d; first = false; } else m += d;
